@@ -13,8 +13,12 @@ Trees(d) ==
   ELSE Leafs \cup {ChElem(Elem(t, <<>>, cs)) : t \in {TagComp("A" \o ToString(d), FALSE, Undef), TagHtml("div"), TagFrag},
                                               cs \in SeqsFromTo(Trees(d - 1), 1, 2)}
 Opt(opt) == [DefaultOpts EXCEPT !.optimize = opt]
+(* deep nesting: chains of single-child elements / components / fragments down to a leaf *)
+RECURSIVE Chains(_)
+Chains(d) == IF d = 0 THEN Leafs
+             ELSE Leafs \cup {ChElem(Elem(t, <<>>, <<c>>)) : t \in {TagComp("A" \o ToString(d), FALSE, Undef), TagHtml("div"), TagFrag}, c \in Chains(d - 1)}
 TreeCases == {[elem |-> Elem(TagComp("Root", FALSE, Undef), <<>>, cs), opts |-> Opt(opt)] :
-                cs \in SeqsFromTo(Trees(TreeDepth), 1, 2), opt \in BOOLEAN}
+                cs \in SeqsFromTo(Trees(TreeDepth), 1, 2) \cup {<<c>> : c \in Chains(4)}, opt \in BOOLEAN}
 
 Init == InitWith(TreeCases)
 Spec == Init /\ [][Next]_vars
